@@ -514,7 +514,7 @@ RECIPES = {
     "C16": dict(mc=[MC_NAMES], record=gen_recorder("C16", cold=True), replay=cold_replay("C16"), prefix_ok=True, props=["C16"], exhaustive=True,
                 speaks=lambda e: e.get("op") == "String",
                 rule="Language(N).String() for every N in -70000..70000 and 42 extreme values; distinct by N"),
-    "C04": dict(mc=[MC_UNICODE, mc_kdf], record=gen_recorder("C04", concuni=True), replay=cold_replay("C04"), prefix_ok=True, props=["C04"], speaks=lambda e: e.get("op") == "ToSeed",
+    "C04": dict(mc=[MC_UNICODE, mc_kdf, lambda t, s_: mc_lifetime(t, s_)], record=gen_recorder("C04", concuni=True), replay=cold_replay("C04"), prefix_ok=True, props=["C04"], speaks=lambda e: e.get("op") == "ToSeed",
                 rule="MnemonicToSeed on the product of argument classes (empty, ASCII, list words in NFC/NFD/NFKC/NFKD, full-width, compatibility characters, reordering marks, "
                      "passphrases beginning with marks, lengths around the 128-byte HMAC block, 4096 bytes, invalid sentences, random Unicode 14 text); distinct by (mnemonic, passphrase)"),
     "C10": dict(mc=[MC_UNICODE, MC_LISTS], record=gen_recorder("C10", concuni=True), replay=cold_replay("C10"), prefix_ok=True, props=["C10"], speaks=lambda e: e.get("op") == "Check" and "group" in e,
@@ -588,6 +588,22 @@ def mc_memo(tier, seed):
     for impl in ("aliaskey", "aliasres"):
         r = vlib.run_mc("MC_Memo", base % impl, workers=2, timeout=300, expect_violation="is violated")
         r["module"] = "MC_Memo[%s control]" % impl
+        res.append(r)
+    return res
+
+
+def mc_lifetime(tier, seed):
+    """buffer lifetime under a collector with finalizers: no wrapper (the code) and wrapper + KeepAlive hold; a wrapper
+    that dies while its slice is in use, and a finalizer on the wrapper of the returned result, are counterexamples"""
+    base = 'SPECIFICATION Spec\nCONSTANTS K = %d WipeImpl = "%%s"\nINVARIANTS EncodesDelivered ResultStays\nCHECK_DEADLOCK FALSE\n' % (3 if tier == "quick" else 6)
+    res = []
+    for impl in ("none", "keepalive"):
+        r = vlib.run_mc("MC_Lifetime", base % impl, workers=2, timeout=300)
+        r["module"] = "MC_Lifetime[%s]" % impl
+        res.append(r)
+    for impl in ("nokeep", "result"):
+        r = vlib.run_mc("MC_Lifetime", base % impl, workers=2, timeout=300, expect_violation="is violated")
+        r["module"] = "MC_Lifetime[%s control]" % impl
         res.append(r)
     return res
 
@@ -779,7 +795,7 @@ def replay_c06(path, binary):
     return (len(mine) == 0, "%s: %d events, %d failing" % ("overlap scenarios run again" if cut is not None else "re-executed", len(lines), len(mine)))
 
 
-RECIPES["C06"] = dict(mc=[mc_reader, mc_calls], record=record_c06, replay=replay_c06, props=["C06", "DRIFT"], exhaustive=True,
+RECIPES["C06"] = dict(mc=[mc_reader, mc_calls, mc_lifetime], record=record_c06, replay=replay_c06, props=["C06", "DRIFT"], exhaustive=True,
                       speaks=lambda e: e.get("op") in ("NewMnemonic", "Read"),
                       rule="one scripted reader per edge of MC_Reader's state graph (every delivered count k -> k', every failure kind EOF/unexpected EOF/other with or "
                            "without bytes alongside, (0,nil) reads) for each of the five word counts, plus all two-piece splits and 1-byte reads; distinct by (count, language, reads)")
